@@ -1,5 +1,4 @@
 import Op2Model.Bmp
-import Op2Model.Gen.Formulas
 /-!
 # Row-size arithmetic of the BMP model: the pitch law, no wrap-around for non-negative widths, and the tie to the
 formulas translated from `ImageHeader::CalcPixelByteWidth / CalculatePitch`
@@ -73,38 +72,5 @@ theorem pixByteWidth_le_pitch (bits : Nat) (w : Int) : pixByteWidth bits w ≤ p
     have := Nat.mod_lt ((toU64 w * bits) % W64 + 7) (by unfold W64; omega : W64 > 0)
     unfold W64 at *; omega
   unfold W64 at *; omega
-
-/-! ### the translated formulas -/
-open Op2.Gen.Formulas
-
-theorem gen_CalcPixelByteWidth_eq (bits : Nat) (w : Int) (hb : bits < 65536) :
-    gen_CalcPixelByteWidth (bits : Int) w = (pixByteWidth bits w : Nat) := by
-  unfold gen_CalcPixelByteWidth pixByteWidth toU64 castU W64
-  have e8 : ((8 : Int) % 2 ^ 64) = 8 := by decide
-  have e1 : ((1 : Int) % 2 ^ 64) = 1 := by decide
-  simp only [e8, e1]
-  have eb : ((bits : Int) % 2 ^ 64) = (bits : Int) := by omega
-  rw [eb]
-  have e7 : ((8 : Int) - 1) % 2 ^ 64 = 7 := by decide
-  rw [e7]
-  have hw : (w % 2 ^ 64) = ((w % 18446744073709551616).toNat : Int) := by omega
-  rw [hw]
-  generalize (w % 18446744073709551616).toNat = u
-  rw [← Int.natCast_mul]
-  generalize u * bits = m
-  omega
-
-theorem gen_CalculatePitch_eq (bits : Nat) (w : Int) (hb : bits < 65536) :
-    gen_CalculatePitch (bits : Int) w = (pitch bits w : Nat) := by
-  unfold gen_CalculatePitch
-  simp only [gen_CalcPixelByteWidth_eq bits w hb]
-  have em : (castU 64 (castS 32 (-(3 : Int) - 1))).toNat = 2 ^ 64 - 4 := by decide
-  have e3 : castU 64 (3 : Int) = 3 := by decide
-  rw [em, e3]
-  unfold pitch
-  generalize pixByteWidth bits w = q
-  have : (castU 64 ((q : Int) + 3)).toNat = (q + 3) % W64 := by unfold castU W64; omega
-  rw [this, and_mask4 _ (by unfold W64; omega)]
-  rfl
 
 end Op2.Bmp
